@@ -206,6 +206,11 @@ def run(rep: Report, ctx: Any) -> str:
     _fixpoint_not_decided_by_one_item(rep, ctx)
     # ---- R08.15: diagnostics do not steer generation -----------------------------------------------------------------------------------
     _diagnostics_only_poured(rep, ctx)
+    # ---- R08.13 (sa/rules/rejected_items.py): a rejected item leaves nothing behind in the threaded registries
+    from . import rejected_items
+
+    rep.floor("item_loops_that_thread_a_registry", rejected_items.check(rep, ctx, "R08.13"), 2)
+    rejected_items.control(rep, ctx, "R08.13")
     rep.not_decided += ["byte equality of the output trees with and without the bad piece"]
     return LEVEL
 
